@@ -104,7 +104,7 @@ for _k, _D in {'_erf': (1, 2, 3), '_erfi': (1, 2, 3), '_log1p': (1, 2, 3), '_log
 class OdeSolutions(Contract):
     """Griewank-Walther Prop. 13.1: v solves b(u) v' - a(u) v = c(u); the helper fills v[1..] from v[0] (unrolled mode)"""
     qual = '_taylor_polynomials_of_ode_solutions'; arrays = ('a_data', 'b_data', 'c_data', 'u_data', 'v_data'); modifies = ('v_data',); returns = 'v_data'
-    cfgs = {'distinct': {}}; bounded_D = (1, 2, 3, 4); bounded_D_thorough = (1, 2, 3, 4); property_ids = ('C01', 'C14')
+    cfgs = {'distinct': {}}; bounded_D = (1, 2, 3); bounded_D_thorough = (1, 2, 3, 4); property_ids = ('C01', 'C14')
     def requires(self, c): return [c.pre['b_data'][0] != 0]
     def ensures(self, c):
         D = ival(c.D); p = c.pre; L = lambda nm: [p[nm][z3.IntVal(i)] for i in range(D)]
